@@ -26,6 +26,8 @@ Verdict(o) ==
         same == \A k \in 1..Len(o.runs) : ObsIssues(o.runs[k]) = ObsIssues(o.runs[1])
     IN  IF bad # {} THEN [id |-> o.id, v |-> "violation:" \o cl[CHOOSE k \in bad : \A k2 \in bad : k <= k2], run |-> CHOOSE k \in bad : \A k2 \in bad : k <= k2]
         ELSE IF ~same THEN [id |-> o.id, v |-> "violation:IssuesOrderFree", run |-> 0]
+        \* every built-in validator (not only the modelled five): the same issues whatever the order of rules and validators
+        ELSE IF \E k \in 1..Len(o.runs) : o.runs[k].allsig # o.runs[1].allsig THEN [id |-> o.id, v |-> "violation:IssuesOrderFree:all-validators", run |-> 0]
         ELSE [id |-> o.id, v |-> "ok", run |-> 0]
 ASSUME ndJsonSerialize(IOEnv.VERIF_OUT, [i \in 1..Len(Obs) |-> Verdict(Obs[i])])
 Init == x = 0
